@@ -37,6 +37,7 @@ CInit0(props) ==
     wexit |-> "",         \* "" | "return" | "panic:<msg>"
     pterms|-> 0,
     piped |-> FALSE,
+    inwake |-> << >>,     \* thread -> has its wake() in progress performed a release write yet?
     stuck |-> FALSE ]
 
 Upd(seq, P(_), F(_)) == [i \in 1..Len(seq) |-> IF P(seq[i]) THEN F(seq[i]) ELSE seq[i]]
@@ -48,9 +49,15 @@ CApply(st, e, n) ==
     [] e.e = "wcreate" -> CR([st EXCEPT !.known = @ \cup {e.w}], {})
     \* ----------------------------------------------------------- Waker
     [] e.e = "wake_begin" ->
-         CR([st EXCEPT !.wakes = Append(@, [w |-> e.w, t |-> e.t, began |-> n, ended |-> FALSE, served |-> FALSE])], {})
+         CR([st EXCEPT !.wakes = Append(@, [w |-> e.w, t |-> e.t, began |-> n, ended |-> FALSE, served |-> FALSE]),
+                       !.inwake = IF e.t \in DOMAIN @ THEN [@ EXCEPT ![e.t] = FALSE] ELSE @ @@ (e.t :> FALSE)], {})
     [] e.e = "wake_end" ->
-         CR([st EXCEPT !.wakes = Upd(@, LAMBDA x : x.w = e.w /\ x.t = e.t /\ ~x.ended, LAMBDA x : [x EXCEPT !.ended = TRUE])], {})
+         CR([st EXCEPT !.wakes = Upd(@, LAMBDA x : x.w = e.w /\ x.t = e.t /\ ~x.ended, LAMBDA x : [x EXCEPT !.ended = TRUE]),
+                       !.inwake = [k \in DOMAIN @ \ {e.t} |-> @[k]]],
+            \* C11, second sentence: the handler can only see what the waking thread wrote before wake() if
+            \* wake() itself performs a release write on the bitmap (the collector's acquiring swap reads it)
+            CB(e.t \in DOMAIN st.inwake /\ ~st.inwake[e.t], "C11",
+               "wake() returned without any release write on the wake bitmap: writes made before it are not published to the handler"))
     [] e.e = "wdrop_begin" ->
          CR([st EXCEPT !.wdrop = @ @@ (e.w :> [began |-> n, ended |-> FALSE])], {})
     [] e.e = "wdrop_end" ->
@@ -144,4 +151,12 @@ CApply(st, e, n) ==
     [] e.e = "crash" ->
          CR([st EXCEPT !.stuck = TRUE], {<<p, "process aborted: " \o e.msg>> : p \in st.props})
     [] OTHER -> CR(st, {})
+
+\* low-level record (atomic operation) of the deterministic scheduler's trace
+CApplyLo(st, r) ==
+  IF r.k = "at" /\ r.t \in DOMAIN st.inwake
+     /\ r.op \in {"fetch_or", "swap", "store", "fetch_and", "fetch_add", "fetch_xor", "compare_exchange", "fetch_sub"}
+     /\ r.ord \in {"SeqCst", "AcqRel", "Release"}
+  THEN [st EXCEPT !.inwake[r.t] = TRUE]
+  ELSE st
 =============================================================================
